@@ -437,8 +437,28 @@ def match_member(v: dict[str, Any], known: list[dict[str, Any]]) -> dict[str, An
     return None
 
 
+def dump_raw(prop: str, tier: str, by_class: dict[str, list[dict[str, Any]]]) -> None:
+    """Before any minimisation: write every violation class with all its members to replays/<prop>/raw-<tier>.json,
+    so that a long sweep never loses what it found."""
+    d = os.path.join(REPLAY_DIR, prop)
+    os.makedirs(d, exist_ok=True)
+    out = {}
+    for cls, vs in sorted(by_class.items()):
+        out[cls] = {"members": [[x.get("family"), x.get("k"), (x.get("scenario") or {}).get("case"), (x.get("scenario") or {}).get("transform"), (x.get("scenario") or {}).get("req_style")] for x in vs],
+                    "example": vs[0]}
+    with open(os.path.join(d, f"raw-{tier}.json"), "w") as f:
+        json.dump(out, f, indent=1, default=str)
+    for cls, vs in sorted(by_class.items()):
+        print(f"  class {cls}: {len(vs)} member(s)", file=sys.stderr, flush=True)
+
+
 def _finalise_wrap(fn: Callable[[Any], Any], v: dict[str, Any]) -> dict[str, Any]:
-    out = dict(fn(v))
+    try:
+        out = dict(fn(v))
+    except HarnessError as e:
+        # keep the un-minimised member rather than losing the whole run; the caller reports it as is
+        out = {k_: v_ for k_, v_ in v.items() if k_ not in ("members", "cls")}
+        out["unminimised"] = str(e)[:300]
     out["members"] = v.get("members")
     out["cls"] = v.get("cls")
     return out
